@@ -484,7 +484,8 @@ class Interp:
                 if len(outs) == 1 and outs[0][1] == "return":
                     c = st.new_cell(outs[0][2])
                     return Ptr(c, ())
-            return Top("static " + op["static"])
+            # a static of another crate (algorithm descriptors and the like): an opaque object identified by its path
+            return Ptr(st.new_cell(Sym("static " + op["static"])), ())
         if "uneval" in op:
             ub = self.facts.bodies.get(op["uneval"])
             if ub is not None:
@@ -1046,7 +1047,7 @@ class Interp:
                 if r is not None:
                     return r
         if body is not None and c.get("resolved_local", c.get("local")):
-            return list(self._call_body(st, body, args, depth + 1, consts=self.bind_consts(body, c, fr), tparams=fr.tparams))
+            return list(self._call_body(st, body, args, depth + 1, consts=self.bind_consts(body, c, fr), tparams=self.bind_tparams(body, c, fr) or fr.tparams))
         st.unmodelled.append(M.short(name))
         return [(st, "return", Top("unmodelled " + M.short(tdef)))]
 
@@ -1072,6 +1073,59 @@ class Interp:
             if want and want in (b.get("impl_trait") or ""):
                 return b
         return None
+
+    def bind_tparams(self, body, c, fr):
+        """the callee's type parameters at this call, read off by unifying the generic path of the resolved callee with its instantiated
+        path (`Header<Version, Purpose>` against `Header<V1, Local>`); a parameter instantiated with one of the caller's own parameters
+        inherits the caller's binding"""
+        names = [g["name"] for g in body.get("impl_generics", []) + body.get("generics", []) if g["kind"] == "type"]
+        if not names:
+            return None
+        gen = c.get("resolved") or c.get("def") or ""
+        inst = c.get("resolved_inst") or c.get("inst") or ""
+        out = {}
+        i = j = 0
+        n, m = len(gen), len(inst)
+        ident = re.compile(r"[A-Za-z_][A-Za-z0-9_]*")
+        while i < n and j <= m:
+            mm = ident.match(gen, i)
+            if mm and mm.group(0) in names and (i == 0 or not (gen[i - 1].isalnum() or gen[i - 1] in "_:'")) and not gen.startswith("::", mm.end()):
+                nxt = gen[mm.end()] if mm.end() < n else None
+                k, d = j, 0
+                while k < m:
+                    ch = inst[k]
+                    if d == 0 and nxt is not None and ch == nxt and not (ch == ">" and k > 0 and inst[k - 1] == "-"):
+                        break
+                    if ch in "<([":
+                        d += 1
+                    elif ch in ">)]" and not (ch == ">" and k > 0 and inst[k - 1] == "-"):
+                        d -= 1
+                        if d < 0:
+                            break
+                    k += 1
+                val = inst[j:k].strip()
+                out.setdefault(mm.group(0), val)
+                i, j = mm.end(), k
+                continue
+            if j < m and gen[i] == inst[j]:
+                if gen[i] == "'":
+                    # lifetimes differ in name only
+                    i += 1
+                    j += 1
+                    a, b = ident.match(gen, i), ident.match(inst, j)
+                    i = a.end() if a else i
+                    j = b.end() if b else j
+                    continue
+                i += 1
+                j += 1
+                continue
+            return {k_: fr.tparams.get(v_, v_) for k_, v_ in out.items()} or None
+        if not out:
+            return None
+        res = dict(fr.tparams or {})
+        for k_, v_ in out.items():
+            res[k_] = (fr.tparams or {}).get(v_, v_)
+        return res
 
     def bind_consts(self, body, c, fr):
         """values of the callee's const generic parameters at this call (from the instantiated name), else inherited symbols"""
